@@ -487,3 +487,25 @@ PROPS["C06"]["bounds"] = "Indexes: <= 4 positions, all < 8; IndexMap (Kani): <= 
 PROPS["C06"]["level_text"] = ("Two engines. Kani/CBMC, one-step inductive: every index primitive (Indexes::insert/remove/shift_up/shift_down; IndexMap::remove/shift and fresh-key insert) is run from an ARBITRARY state satisfying the representation invariant and must re-establish it. "
                               "MIR symbolic execution + z3: the Object methods and the removal iterators (next, Drop) are interpreted from their MIR over Vec/IndexMap models for EVERY history of <= 4 (quick) / 5 (thorough) operations from the empty object with SYMBOLIC keys; "
                               "after every operation the entries equal the list model's, the index is canonical for them and the result is the model's; counter-examples and a sample of passing histories are replayed on the real Object.")
+
+# ---------------------------------------------------------------------------
+# C15: Object::unordered_eq, by symbolic execution of its MIR (drv/objcheck.py --unordered)
+def UNORD(tier, n, cap):
+	h = H("obj::unordered_eq_n%d" % n, "mir", tier, cap,
+	      "every pair of objects with the same number <= %d of entries: keys SYMBOLIC (one character each, a z3 integer over all Unicode scalar values >= 'A'; which keys coincide, within and across the two objects, is decided lazily by the solver), "
+	      "values over {0, 1}; both argument orders" % n, "objects of <= %d entries, scalar values" % n, gb=2.0)
+	h["tool"] = "objcheck"
+	h["unordered"] = n
+	return h
+
+
+PROPS["C15"] = dict(
+	design_ref="DESIGN.md §0 (second engine) / §4 C15",
+	level_text="Symbolic execution of the MIR of Object::unordered_eq (and of the closures it passes to all/any) with z3: for every pair of objects of <= 3 (quick) / 4 (thorough) entries with SYMBOLIC keys — every pattern of coinciding keys inside and across the two objects — and values over {0, 1}, the result equals the permutation criterion (equality of the entry multisets), in both argument orders; counter-examples are replayed on the real Object.",
+	level_note="One level: values are scalars (the recursion of Value::unordered_eq into nested arrays and objects is outside); the index is the bucket-semantics model (C06). This is the check that exposed the multiplicity defect fixed in /repo (known-findings.txt).",
+	functions=["<Object as UnorderedPartialEq>::unordered_eq and its closures (from MIR)", "Object::push / push_entry (from MIR, to build the objects)"],
+	bounds="objects of <= 3 (quick) / 4 (thorough) entries; values scalar",
+	outside=["nested values (recursion through Value::unordered_eq / Vec::unordered_eq)", "objects of more than 4 entries", "the Unordered wrapper's Hash"],
+	stubs=[], assumptions=["get_entries / get_entries_with_index are represented by the index's bucket semantics (C06); Value::unordered_eq on scalars is equality"],
+	harnesses=[UNORD("quick", 3, 900), UNORD("thorough", 4, 3600)],
+)
